@@ -51,6 +51,8 @@ def generate(tier, seed):
             r['ops'] = [['adapt', mk]] + (follow or [])
             if counter[0] % 7 == 0:
                 r['marked_as'] = 'list'
+            if counter[0] % 9 == 0:
+                r['ops'][0][1] = mk + [mk[0]]       # the set listed with a repetition (e.g. f2t[0, facets])
             recs.append(r)
 
     # segments: every marked subset
@@ -127,6 +129,20 @@ def generate(tier, seed):
     if thorough:
         p, t = U.tet_cubes(2, 6)
         add('tet', 'MeshTet1', p, t, all_subsets(12, rng, 40))
+    # a small cell next to an elongated neighbour: the closure needs many bisections (capacity of work arrays)
+    for far in ((4, 8) if thorough else (4,)):
+        P = np.array([[0, 0, 0], [1, 0, 0], [0, 1, 0], [0, 0, 1], [far, far, far]], dtype=float).T
+        T = np.array([[0, 1, 2, 3], [1, 2, 3, 4]]).T
+        add('tet', 'MeshTet1', P, T, [(0,), (1,), (0, 1)])
+    P = np.array([[0, 0], [1, 0], [0, 1], [8, 8]], dtype=float).T
+    T = np.array([[0, 1, 2], [1, 2, 3]]).T
+    add('tri', 'MeshTri1', P, T, [(0,), (1,), (0, 1)])
+    # trailing points used by no cell (stray nodes of a mesh file)
+    for kind_, cls_, (p_, t_) in (('line', 'MeshLine1', U.line_points([0, 1, 2, 3])), ('tri', 'MeshTri1', U.tri_lattice(2, 1, (0, 1))),
+                                  ('tet', 'MeshTet1', U.tet_cubes(1, 5))):
+        extra = np.full((p_.shape[0], 2), 7.0)
+        extra[0, 1] = 9.0
+        add(kind_, cls_, np.hstack((p_, extra)), t_, all_subsets(t_.shape[1], rng, 6))
     # second-order classes
     p, t = U.tri_lattice(2, 1, (0, 1))
     add('tri', 'MeshTri2', p, t, all_subsets(4, rng, 15))
